@@ -92,10 +92,10 @@ pub fn def(tier: Tier) -> PropertyDef {
         rule: "messages as parsed from generated marker-clean M-STREAM streams (both framings, all htyp flag combinations, payload 0..max, arbitrary ids/counters/times, micros < 10^6); oracle: to_write -> parse_dlt_with_storage_header consumes exactly the bytes and yields the same ECU, reception time, timestamp (+presence), mcnt, byte order bit, extended header, payload; to_write of the re-read message is byte identical; concatenated export re-reads to the same sequence and exports identically. Non-trivial: message with WEID/WSID (rewritten length differs) or MSBF or payload > 60000.",
         assumptions: vec!["input messages come from the real parser (C01 decides that the parser is faithful)"],
         subs: vec![
-            sub("roundtrip_small", tier.pick(30_000, 800_000), (stream(20, false, 100), start.clone()), check)
+            sub("roundtrip_small", tier.pick(300_000, 3_000_000), (stream(20, false, 100), start.clone()), check)
                 .rates(&[("weid_or_wsid", 0.3), ("msbf", 0.3), ("no_timestamp", 0.3), ("timestamp_present_but_zero", 0.05)])
                 .boxed(),
-            sub("roundtrip_huge", tier.pick(3_000, 100_000), (stream(6, true, 100), start), check)
+            sub("roundtrip_huge", tier.pick(30_000, 400_000), (stream(6, true, 100), start), check)
                 .rates(&[("payload_gt_60000", 0.05)])
                 .boxed(),
         ],
